@@ -181,6 +181,77 @@ class IntNd(SymNd):
         SymNd.__setitem__(self, k, _trunc_value(v))
 
 
+class I64Nd(SymNd):
+    """object array standing for an int64 array with SYMBOLIC integer elements (np.arange(n) for a symbolic record length):
+    arithmetic that stays within the integers (+, -, *, ** with integers) is int64 arithmetic in numpy and wraps silently, so every such
+    operation raises the definedness condition 'no int64 overflow' (kind "int64") for its results; anything else behaves like SymNd"""
+    LO, HI = -(2 ** 63), 2 ** 63 - 1
+
+    @staticmethod
+    def _isint(o):
+        if isinstance(o, (bool, rnp.bool_)):
+            return False
+        if isinstance(o, (int, rnp.integer)):
+            return True
+        if isinstance(o, SR):
+            return z3.is_int(o.t)
+        if isinstance(o, I64Nd):
+            return True
+        if isinstance(o, rnp.ndarray):
+            return o.dtype.kind in "iu"
+        return False
+
+    def _iop(self, o, f, rev=False):
+        if not I64Nd._isint(o):
+            return NotImplemented
+        out = _map((lambda a, b: f(b, a)) if rev else f, rnp.asarray(self, dtype=object), rnp.asarray(o, dtype=object))
+        for e in out.flat:
+            if isinstance(e, SR):
+                ctx.vc("int64", z3.And(e.t >= I64Nd.LO, e.t <= I64Nd.HI))
+        return out.view(I64Nd)
+
+    def _fallback(self, name, o):
+        return getattr(rnp.ndarray, name)(rnp.asarray(self, dtype=object).view(SymNd), o)
+
+    def __mul__(self, o):
+        r = self._iop(o, operator.mul)
+        return self._fallback("__mul__", o) if r is NotImplemented else r
+
+    def __rmul__(self, o):
+        r = self._iop(o, operator.mul, True)
+        return self._fallback("__rmul__", o) if r is NotImplemented else r
+
+    def __add__(self, o):
+        r = self._iop(o, operator.add)
+        return self._fallback("__add__", o) if r is NotImplemented else r
+
+    def __radd__(self, o):
+        r = self._iop(o, operator.add, True)
+        return self._fallback("__radd__", o) if r is NotImplemented else r
+
+    def __sub__(self, o):
+        r = self._iop(o, operator.sub)
+        return self._fallback("__sub__", o) if r is NotImplemented else r
+
+    def __rsub__(self, o):
+        r = self._iop(o, operator.sub, True)
+        return self._fallback("__rsub__", o) if r is NotImplemented else r
+
+    def __pow__(self, o):
+        if isinstance(o, (int, rnp.integer)) and not isinstance(o, bool) and o >= 0:
+            out = rnp.asarray(self, dtype=object) * 0 + 1
+            out = out.view(I64Nd)
+            for _ in range(int(o)):
+                out = out * self          # numpy computes integer powers by repeated int64 multiplication: every partial product must fit
+            return out
+        return self._fallback("__pow__", o)
+
+    def astype(self, dtype, **k):
+        if _is_float_dtype(dtype):
+            return rnp.asarray(self, dtype=object).view(SymNd)
+        return self
+
+
 class MaskSel:
     """a[mask] with a symbolic mask: kept at full shape; only usable as the source of b[mask] = ... with the same mask"""
     def __init__(self, full, mask):
@@ -520,8 +591,24 @@ class NumpyShim:
         if any(is_sym(x) for x in a):
             if len(a) != 1 or not isinstance(a[0], SR):
                 raise SymbolicBranch("np.arange(start, stop) with symbolic bounds")
-            return generic_arange(a[0])
+            g = generic_arange(a[0])
+            dt = k.get("dtype")
+            return g if (dt is not None and _is_float_dtype(dt)) else g.view(I64Nd)
         return rnp.arange(*a, **k)
+
+    def vander(self, x, N=None, increasing=False):
+        if isinstance(x, I64Nd) or has_sym(x):
+            x = x if isinstance(x, rnp.ndarray) else rnp.asarray(x, dtype=object).view(SymNd)
+            n = len(x) if N is None else int(N)
+            cols = [x ** j for j in range(n)]          # integer input: integer powers (numpy keeps the dtype)
+            if not increasing:
+                cols = cols[::-1]
+            out = rnp.empty((len(x), n), dtype=object)
+            for j, c in enumerate(cols):
+                for i in range(len(x)):
+                    out[i, j] = c[i]
+            return out.view(I64Nd if isinstance(x, I64Nd) else SymNd)
+        return rnp.vander(x, N, increasing)
 
     def stack(self, arrs, axis=0, **k):
         if has_sym(list(arrs)):
@@ -1223,6 +1310,15 @@ def clone_module(mod, overrides, subst=None, builtins_extra=None, importer=None)
         f0 = getattr(obj, "py_func", None) or obj
         if isinstance(f0, types.FunctionType) and f0.__module__ == mod.__name__:
             G[name] = re(obj)
+            subst[id(obj)] = G[name]
+        elif type(obj).__name__ == "_lru_cache_wrapper" and isinstance(getattr(obj, "__wrapped__", None), types.FunctionType) and obj.__wrapped__.__module__ == mod.__name__:
+            # functools.lru_cache around a module function: the function is cloned and gets a cache of its own (same parameters)
+            import functools
+            try:
+                params = obj.cache_parameters()
+            except Exception:
+                params = {"maxsize": 128, "typed": False}
+            G[name] = functools.lru_cache(**params)(re(obj.__wrapped__))
             subst[id(obj)] = G[name]
     for name, obj in list(mod.__dict__.items()):
         if name in overrides or name.startswith("__"):
